@@ -30,3 +30,7 @@ Proof. vm_compute. reflexivity. Qed.
    although no extent is 0 — size() == 0 is not a test for emptiness *)
 Example wrap_not_empty : size_impl I32 [65536; 65536] = 0 /\ empty_impl [65536; 65536] = false.
 Proof. split; vm_compute; reflexivity. Qed.
+
+Lemma empty_is_not_size_zero_refuted :
+  exists (t : ity) (es : list Z), Forall (fun e => 0 < e <= imax t) es /\ size_impl t es = 0 /\ empty_impl es = false.
+Proof. exists I32, [65536; 65536]. split; [repeat constructor; cbv; intuition congruence|split; vm_compute; reflexivity]. Qed.
